@@ -394,8 +394,9 @@ def r4(ctx):
     zk = P.find_fn("Board::zobrist", "chess_movegen")
     calls = [(t["f"].get("fn"), t["f"].get("fn_args", "")) for _, t in P.calls(hk)]
     names = [c[0] for c in calls]
-    hashed = [c for c in calls if "core::hash::Hash" in c[1] or "hash::impls" in c[0]]
-    ok = names.count(zk) == 1 and len(hashed) == 1 and "u64" in hashed[0][1] and len(calls) == 2
+    # the folded hash reaches the hasher once, as one u64: `zobrist().hash(state)` or `state.write_u64(zobrist())` (what u64::hash does)
+    hashed = [c for c in calls if (("core::hash::Hash" in c[1] or "hash::impls" in c[0]) and "u64" in c[1]) or c[0].endswith("Hasher::write_u64") or c[1].endswith("Hasher>::write_u64")]
+    ok = names.count(zk) == 1 and len(hashed) == 1 and len(calls) == 2
     # the value hashed is the call result of zobrist()
     b = P.body(hk)
     zdst = [t["d"]["l"] for _, t in P.calls(hk) if t["f"].get("fn") == zk]
@@ -409,11 +410,16 @@ def r4(ctx):
     eb = P.body(ek)
     ctx.ob("Eq not derived -> read its fields", True, "")
     read = set()
+    from analysis.facts import walk_operands
     for blk in eb["blocks"]:
-        for s in blk["s"]:
-            for e in (s.get("r", {}).get("p", {}) or {}).get("pj", []):
-                if isinstance(e, dict) and e.get("a") == "chess_movegen::Board":
-                    read.add(e["n"])
+        for s in blk["s"] + [blk["t"]]:
+            places = [o["p"] for o in walk_operands(s) if o.get("k") in ("copy", "move")]
+            if isinstance(s.get("r"), dict) and isinstance(s["r"].get("p"), dict):
+                places.append(s["r"]["p"])
+            for pl in places:
+                for e in pl.get("pj", []):
+                    if isinstance(e, dict) and e.get("a") == "chess_movegen::Board":
+                        read.add(e["n"])
     want = {"turn", "castle_rights", "enpassant_target", "raw"}
     ctx.ob("Eq fields", read == want, f"<Board as PartialEq>::eq reads fields {sorted(read)}; the hash is a function of {sorted(want)} (raw through the piece hash): "
            f"missing {sorted(want - read)}, extra {sorted(read - want)}", site=eb.get("def_span"), sample={"fields": sorted(read)})
@@ -421,7 +427,7 @@ def r4(ctx):
     eng2 = T.Engine(P)
     lv = eng2.tabulate(ek)
     bad = [lf for lf in lv if any(v == 0 and t[0] in ("eq", "bin") for t, v in lf.cond) and lf.ret != T.FALSE]
-    ctx.ob("Eq is a conjunction", not bad and len(lv) >= 4, f"<Board as PartialEq>::eq returns non-false on a path where a field comparison failed: {[T.show_cond(l.cond)[:120] for l in bad]}",
+    ctx.ob("Eq is a conjunction", not bad and len(lv) >= 2, f"<Board as PartialEq>::eq returns non-false on a path where a field comparison failed: {[T.show_cond(l.cond)[:120] for l in bad]}",
            site=eb.get("def_span"), sample={"paths": len(lv)})
     for adt in ("chess_movegen::raw::RawBoard", "chess_movegen::castle_rights::CastleRights", "chess_movegen::OptionalFile"):
         b2 = P.body(f"<{adt} as core::cmp::PartialEq>::eq")
